@@ -176,6 +176,17 @@ func (fr *frame) dynamicCall(v ssa.Value, c *ssa.CallCommon, sig *types.Signatur
 				continue
 			}
 			txt = strings.TrimSpace(strings.TrimPrefix(txt, "dynamic"))
+			if strings.HasPrefix(txt, "#") { // dynamic#N: only the N-th call through a function value, in source order
+				j := 1
+				for j < len(txt) && txt[j] >= '0' && txt[j] <= '9' {
+					j++
+				}
+				n, _ := strconv.Atoi(txt[1:j])
+				txt = strings.TrimSpace(txt[j:])
+				if fr.dynamicOrdinal(c.Pos()) != n {
+					continue
+				}
+			}
 			txt = strings.TrimSpace(strings.TrimPrefix(txt, "requires"))
 			lab, body := splitLabel(txt)
 			e, err := ParseExpr(body)
@@ -268,6 +279,12 @@ func (fr *frame) restoreLoc(pre, st *State, addr string, t types.Type) {
 		return
 	}
 	vc.store(st, addr, t, vc.load(pre, addr, t))
+	if _, isMap := t.Underlying().(*types.Map); isMap {
+		// the map object the location refers to keeps its content too
+		mc := vc.mapClass(t)
+		m := vc.load(pre, addr, t)
+		st.heap[mc] = vc.define(vc.fresh(mc), vc.classSortByName(mc), "(store "+vc.heapOf(st, mc)+" "+m+" (select "+vc.heapOf(pre, mc)+" "+m+"))")
+	}
 }
 
 // functions of the standard library that are known not to write program-visible memory (value-only arguments and results)
@@ -751,6 +768,34 @@ func (fr *frame) sourceOrdinal(key string, pos token.Pos) int {
 	return 0
 }
 
+// dynamicOrdinal: rank in source order of a call through a function value among such calls of the function
+func (fr *frame) dynamicOrdinal(pos token.Pos) int {
+	var ps []token.Pos
+	for _, b := range fr.fn.Blocks {
+		for _, in := range b.Instrs {
+			ci, ok := in.(ssa.CallInstruction)
+			if !ok {
+				continue
+			}
+			c := ci.Common()
+			if c.IsInvoke() || c.StaticCallee() != nil {
+				continue
+			}
+			if _, isB := c.Value.(*ssa.Builtin); isB {
+				continue
+			}
+			ps = append(ps, c.Pos())
+		}
+	}
+	sort.Slice(ps, func(i, j int) bool { return ps[i] < ps[j] })
+	for i, p := range ps {
+		if p == pos {
+			return i + 1
+		}
+	}
+	return 0
+}
+
 func pureFnName(declName string, i int) string {
 	if i == 0 {
 		return "|pure_" + declName + "|"
@@ -857,6 +902,11 @@ func (fr *frame) applyModifies(items []modItem, env *specEnv, st *State, ctxFn *
 			if !ok {
 				vc.unsupported = append(vc.unsupported, "modifies elems of non-slice")
 				vc.havocAll(st, "modifies ?")
+				continue
+			}
+			if _, isStruct := sl.Elem().Underlying().(*types.Struct); isStruct {
+				vc.unsupported = append(vc.unsupported, "modifies elems of a slice of structs: everything havocked")
+				vc.havocAll(st, "modifies elems of structs")
 				continue
 			}
 			for _, c := range vc.classesOfType(sl.Elem()) {
@@ -1203,32 +1253,126 @@ func (fr *frame) appendBuiltin(v ssa.Value, c *ssa.CallCommon, st *State, g stri
 	vc.assume(fmt.Sprintf("(=> (not %s) (and (= %s %s) (= %s 0) (= %s %s)))", fits, rarr, fresh, roff, rcap, ncap))
 	fr.set(v, fmt.Sprintf("(mk_slice %s %s %s %s)", rarr, roff, rlen, rcap))
 	vc.needEAQuant()
-	for _, cl := range vc.classesOfType(et) {
+	if isStr {
+		for _, cl := range vc.classesOfType(et) {
+			old := vc.heapOf(st, cl)
+			vc.havocClass(st, cl)
+			nw := st.heap[cl]
+			vc.assume(fmt.Sprintf("(forall ((a Int)) (! (=> (and (not (and (= (akind a) 1) (= (ea_arr a) %s))) (not (and (= (akind a) 1) (= (ea_arr a) %s) (>= (ea_idx a) (+ %s %s)) (< (ea_idx a) (+ %s %s))))) (= (select %s a) (select %s a))) :pattern ((select %s a))))",
+				fresh, rarr, roff, slen, roff, rlen, nw, old, nw))
+		}
+		vc.note("append of string bytes: byte values of the result are not characterised")
+		return
+	}
+	// leaves: the scalar cells an element occupies (one for scalar elements, one per field path for struct elements)
+	leaves := vc.leafPaths(et)
+	if leaves == nil {
+		vc.unsupported = append(vc.unsupported, "append of elements containing arrays")
+		vc.havocAll(st, "append")
+		return
+	}
+	byClass := map[string][]leafPath{}
+	var classOrder []string
+	for _, lf := range leaves {
+		if _, ok := byClass[lf.class]; !ok {
+			classOrder = append(classOrder, lf.class)
+		}
+		byClass[lf.class] = append(byClass[lf.class], lf)
+	}
+	for _, cl := range classOrder {
 		old := vc.heapOf(st, cl)
 		vc.havocClass(st, cl)
 		nw := st.heap[cl]
-		// unchanged outside the appended range of the result array (and outside the fresh array)
-		vc.assume(fmt.Sprintf("(forall ((a Int)) (! (=> (and (not (and (= (akind a) 1) (= (ea_arr a) %s))) (not (and (= (akind a) 1) (= (ea_arr a) %s) (>= (ea_idx a) (+ %s %s)) (< (ea_idx a) (+ %s %s))))) (= (select %s a) (select %s a))) :pattern ((select %s a))))",
-			fresh, rarr, roff, slen, roff, rlen, nw, old, nw))
+		// a cell keeps its value unless it is a leaf of an element in the appended range of the result array or of the fresh array
+		var touched []string
+		for _, lf := range byClass[cl] {
+			e := lf.elemOf("a")
+			touched = append(touched, fmt.Sprintf("(and %s (= (akind %s) 1) (or (= (ea_arr %s) %s) (and (= (ea_arr %s) %s) (>= (ea_idx %s) (+ %s %s)) (< (ea_idx %s) (+ %s %s)))))",
+				lf.isLeaf("a"), e, e, fresh, e, rarr, e, roff, slen, e, roff, rlen))
+		}
+		vc.assume(fmt.Sprintf("(forall ((a Int)) (! (=> (not %s) (= (select %s a) (select %s a))) :pattern ((select %s a))))", or(touched...), nw, old, nw))
+		for _, lf := range byClass[cl] {
+			// elements of the result by absolute index k into the result's backing array
+			vc.assume(fmt.Sprintf("(forall ((k Int)) (! (=> (and (<= %s k) (< k (+ %s %s))) (= (select %s %s) (select %s %s))) :pattern ((select %s %s))))",
+				roff, roff, slen, nw, lf.addrOf("(ea "+rarr+" k)"), old, lf.addrOf(fmt.Sprintf("(ea %s (+ %s (- k %s)))", sarr, soff, roff)), nw, lf.addrOf("(ea "+rarr+" k)")))
+			vc.assume(fmt.Sprintf("(forall ((k Int)) (! (=> (and (<= (+ %s %s) k) (< k (+ %s %s))) (= (select %s %s) (select %s %s))) :pattern ((select %s %s))))",
+				roff, slen, roff, rlen, nw, lf.addrOf("(ea "+rarr+" k)"), old, lf.addrOf(fmt.Sprintf("(ea %s (+ %s (- k %s %s)))", xarr, xoff, roff, slen)), nw, lf.addrOf("(ea "+rarr+" k)")))
+		}
 	}
-	if _, isStruct := et.Underlying().(*types.Struct); isStruct || isStr {
-		vc.note("append of struct elements / string bytes: element values of the result are not characterised")
-		return
+}
+
+type leafPath struct {
+	class string
+	fns   []string // field address functions from the element outwards
+	invs  []string
+	kinds []int
+}
+
+// addrOf: the leaf's address inside the element at address e
+func (lf leafPath) addrOf(e string) string {
+	a := e
+	for _, f := range lf.fns {
+		a = "(" + f + " " + a + ")"
 	}
-	if _, isArr := et.Underlying().(*types.Array); isArr {
-		return
+	return a
+}
+
+// elemOf: the element address a leaf address a belongs to (through the inverse field functions)
+func (lf leafPath) elemOf(a string) string {
+	e := a
+	for i := len(lf.invs) - 1; i >= 0; i-- {
+		e = "(" + lf.invs[i] + " " + e + ")"
 	}
-	cl := vc.className(et)
-	nw := vc.heapOf(st, cl)
-	old := fr.lastOld(cl, nw)
-	if old == "" {
-		return
+	return e
+}
+
+// isLeaf: a has the address kind of this leaf (scalar elements: an element address; fields: the field's kind all the way down)
+func (lf leafPath) isLeaf(a string) string {
+	if len(lf.fns) == 0 {
+		return "true"
 	}
-	// elements of the result by absolute index k into the result's backing array
-	vc.assume(fmt.Sprintf("(forall ((k Int)) (! (=> (and (<= %s k) (< k (+ %s %s))) (= (select %s (ea %s k)) (select %s (ea %s (+ %s (- k %s)))))) :pattern ((select %s (ea %s k)))))",
-		roff, roff, slen, nw, rarr, old, sarr, soff, roff, nw, rarr))
-	vc.assume(fmt.Sprintf("(forall ((k Int)) (! (=> (and (<= (+ %s %s) k) (< k (+ %s %s))) (= (select %s (ea %s k)) (select %s (ea %s (+ %s (- k %s %s)))))) :pattern ((select %s (ea %s k)))))",
-		roff, slen, roff, rlen, nw, rarr, old, xarr, xoff, roff, slen, nw, rarr))
+	var cs []string
+	cur := a
+	for i := len(lf.fns) - 1; i >= 0; i-- {
+		cs = append(cs, fmt.Sprintf("(= (akind %s) %d)", cur, lf.kinds[i]))
+		cs = append(cs, fmt.Sprintf("(= (%s (%s %s)) %s)", lf.fns[i], lf.invs[i], cur, cur))
+		cur = "(" + lf.invs[i] + " " + cur + ")"
+	}
+	return and(cs...)
+}
+
+func (vc *VC) leafPaths(t types.Type) []leafPath {
+	switch u := t.Underlying().(type) {
+	case *types.Struct:
+		var out []leafPath
+		for i := 0; i < u.NumFields(); i++ {
+			name := vc.fieldAddrFn(t, u, i)
+			inv := "|inv" + name[1:]
+			kind := 1000 + vc.P.TypeID("field:"+name)
+			vc.quantFieldAxiom(name, inv, kind)
+			sub := vc.leafPaths(u.Field(i).Type())
+			if sub == nil {
+				return nil
+			}
+			for _, s := range sub {
+				out = append(out, leafPath{class: s.class, fns: append([]string{name}, s.fns...), invs: append([]string{inv}, s.invs...), kinds: append([]int{kind}, s.kinds...)})
+			}
+		}
+		return out
+	case *types.Array:
+		return nil
+	}
+	return []leafPath{{class: vc.className(t)}}
+}
+
+func (vc *VC) quantFieldAxiom(name, inv string, kind int) {
+	if vc.boxFacts == nil {
+		vc.boxFacts = map[string]bool{}
+	}
+	if !vc.boxFacts["q:"+name] {
+		vc.boxFacts["q:"+name] = true
+		vc.assume(fmt.Sprintf("(forall ((r Int)) (! (and (= (%s (%s r)) r) (= (base (%s r)) (base r)) (= (akind (%s r)) %d) (not (= (%s r) 0))) :pattern ((%s r))))", inv, name, name, name, kind, name, name))
+	}
 }
 
 // lastOld finds the heap term that was replaced by nw in the most recent havocClass (recorded by havocClass)
